@@ -18,16 +18,15 @@ CLAIMS = {
             'Sender bookkeeping and the resend loop body are under contract too (units U6/U9), and RenetClient::{new, new_from_server, from_channels} are proved verbatim to build '
             'each configured channel with its configured kind, budget and direction (U14).',
             'RenetClient::{process_packet, send_message, receive_message} are proved verbatim (U15): a decodable packet reaches exactly the channel it names, every (id, bytes) pair of it is taken over or already done, '
-            'nothing else changes; send_message stores the bytes once under the next id of the named channel. Not decided: the liveness sentence (bounded ticks), the ack -> message id correspondence of the sent-packet records, '
-            'and that the renet wire codec is the identity on (id, bytes) pairs (see C16).'),
+            'nothing else changes; send_message stores the bytes once under the next id of the named channel. RenetClient::get_packets_to_send (U16): the record filed under each sent packet\'s sequence number names exactly the message ids / slice that packet carried, and every packet is labelled with a channel of the send order of the matching kind. Not decided: the liveness sentence (bounded ticks); records_ok (kinds of the recorded ids) is a precondition of the Ack arm, not an established invariant.'),
     'C02': ('Unordered reliable receive: `done` is monotone, a message is stored only if its id is not done, receive_message removes exactly what it returns, '
             'and returns Some whenever a complete message is buffered; the cursor loop is proved with invariant and decreases. A ReliableUnordered configuration entry yields an '
             'unordered receive channel (RenetClient::from_channels, verbatim, U14).',
-            'Not decided: liveness.'),
+            'Sender side (U6/U9/U17, the same struct serves both reliable kinds): a duplicate slice acknowledgement changes nothing, sending releases nothing. Not decided: liveness.'),
     'C03': ('Reassembly equals the submitted bytes for every length and every arrival order with duplicates (one quantified statement over all messages m: '
             'agrees(m) is preserved, a result appears only when all slices arrived and then equals m); buffered bytes per id stay authentic. Sender: every unreliable slice packet '
             'carries the id opened for its message, ids of one flush are fresh and never shared by two messages (U7).',
-            'Channel-id routing of slices and messages in RenetClient::process_packet is proved verbatim (U15: only the named channel changes; an authentic unreliable slice never costs the connection). Not decided: RenetClient::get_packets_to_send glue.'),
+            'Channel-id routing of slices and messages in RenetClient::process_packet is proved verbatim (U15: only the named channel changes; an authentic unreliable slice never costs the connection). Every packet a send channel hands out carries that channel\'s own id (U7, U17), and every packet of RenetClient::get_packets_to_send is labelled with a channel of the send order of the matching kind (U16).'),
     'C04': ('Replay window: for all u64 sequences, a sequence in the accepted set is always reported as received and a fresh one less than 256 behind is accepted '
             '(Verus, ghost accepted set). Packet::decode (Kani, complete for datagrams 0..=48 bytes, all prefix bytes): window consulted before the AEAD, advanced only '
             'after the AEAD accepted that datagram, AAD = version||protocol id||prefix, nonce = decoded sequence, ciphertext = whole remainder.',
@@ -47,11 +46,11 @@ CLAIMS = {
             'order and is trimmed exactly up to the horizon by acked_largest (Verus, unbounded).',
             'Every decodable non-Ack packet handed to RenetClient::process_packet has its sequence recorded by add_pending_ack (U15). The Ack arm of RenetClient::process_packet (U15): exactly the records whose sequence lies inside a received half-open range are removed (none outside), acknowledgements only release or mark messages of reliable send channels (nothing is added or altered), '
             'our own pending list is only trimmed. Assumed: BTreeMap::range summary (D18), records_ok (that a record names the ids/slices of the packet it was written for is established in get_packets_to_send by code not under that contract). '
-            'Not decided: that a released message id is one the acknowledged packet carried (needs the record contents, written through map/collect).'),
+            'Record contents (U16, RenetClient::get_packets_to_send): the record filed under a packet\'s sequence number names exactly the message ids / the slice that packet carried (map/collect specified through vstd), records of other sequence numbers are untouched: a released id is one the acknowledged packet carried. Still assumed: records_ok (kinds of the recorded ids) as a history invariant.'),
     'C09': ('Accounting invariant memory_usage_bytes == sum of stored message lengths + reserved reassembly buffers <= max, preserved by every operation of the reliable '
             'receive channel from every state, including the offset state inside process_slice; duplicates of done messages reserve nothing (clean()).',
             'RenetClient::update (U18, verbatim around an assumed values_mut induction, rule D18) applies the 3-second discard to every unreliable receive channel with the advanced clock. '
-            'Not decided: the end-to-end "never disconnected within budget" sentence; other channel structs when their units are not listed in the evidence.'),
+            'A duplicate of a message already taken over never fails for memory (U4). Not decided: the end-to-end "never disconnected within budget" sentence as a whole; other channel structs when their units are not listed in the evidence.'),
     'C13': ('pending_acks.len() <= 64 after every add_pending_ack for any arrival order (Verus); every netcode packet kind encodes to exactly 1+n+body+16 <= 1400 bytes, '
             'payloads of every length 0..=1300, request = 1078 bytes (Kani, complete).',
             'renet: Packet::to_bytes fails only when the buffer is shorter than the wire length and writes exactly that many bytes; a message-carrying packet that satisfies the channels\' packing bound is at most 1300 bytes, '
@@ -78,14 +77,14 @@ CLAIMS = {
             'Assumed: the AEAD itself. generate_payload_packet / update_client / disconnect seal with the session counter and advance it (verbatim, U19).'),
     'C19': ('Size relation: decode yields ConnectionRequest only from >= 1078 bytes; Challenge encodes to <= 333 and ConnectionDenied to <= 25 bytes, both < 1078 (Kani, complete). '
             'Control flow (Verus, U19, verbatim): process_packet_internal / handle_connection_request answer a datagram with at most one datagram, addressed to the sender, of at most 333 bytes, and only for a request whose token is authentic, '
-            'unexpired and not presented from another address before; every error path returns no datagram.',
+            'unexpired and not presented from another address before; a half-open session is answered (denial of a full server) only after its response echoed a challenge this server sealed for that session\'s client id; every error path returns no datagram.',
             'Assumed: AEAD idealisation; encode lengths as proved by the U11 harnesses; one-line iterator chains by assumed functions. Not decided: update_client (keep-alive / disconnect packets to connected clients, not unproven addresses).'),
 }
 
 CLAIMS.update({
     'C05': ('NetcodeServer::{handle_connection_request, find_or_add_connect_token_entry, process_packet_internal} proved verbatim (Verus, U19): a request is answered only if its private token opens under the '
             'server key/protocol id/expiry it names, the clock is before the expiry, the address is not connected, and the token was not presented from another address before (token table: one entry per MAC, '
-            'first address wins); ClientConnected is reported only for a half-open session at that address whose response echoes a challenge this server sealed for the same client id and user data, which are the ones reported.',
+            'first address wins; a remembered token is overwritten only when no slot of the table is free and no entry is older); ClientConnected is reported only for a half-open session at that address whose response echoes a challenge this server sealed for the same client id and user data, which are the ones reported.',
             'Assumed: AEAD idealisation (token_authentic / challenge_authentic / sealed_under are uninterpreted: opening succeeds only for what the key sealed); one-line iterator chains replaced by assumed functions '
             '(host list test, free-slot search, find_client_*); history assumptions (counters not wrapped). Token side (U20, verbatim): the associated data sealed into and required from a private token is version || protocol id || expiry (get_additional_data, PrivateConnectToken::encode/decode), a private token comes out of decode only if the AEAD opened the data under the given key, nonce and that associated data, and ConnectToken::generate seals a private part with the same client id, keys, addresses and the given user data. '
             'Not decided: the wrong-host clause beyond the assumed host-list function; update/update_client time-outs.'),
@@ -99,13 +98,12 @@ CLAIMS.update({
             'a reliable message or slice that does not fit stays queued untouched, an unreliable message that does not fit is dropped whole (Verus: SendChannelUnreliable::get_packets_to_send '
             'verbatim with loop invariants; body of the reliable send loop outlined by rule D6).',
             'Assumed: rule D6 (the outlined loop body is proved for an arbitrary element and loop state; that BTreeMap::iter_mut visits each entry once is std\'s protocol). '
-            'RenetClient::get_packets_to_send (U16, verbatim) threads one available_bytes through all channels in channel_send_order: the message bytes of all packets of a tick stay within available_bytes_per_tick; the reliable channel\'s whole function is proved in U17 (loop induction assumed, rule D18). Not decided: '
-            'the prologue/epilogue of SendChannelReliable::get_packets_to_send (early return, final flush) is not under contract.'),
+            'RenetClient::get_packets_to_send (U16, verbatim) threads one available_bytes through all channels in channel_send_order: the message bytes of all packets of a tick stay within available_bytes_per_tick; the reliable channel\'s whole function is proved in U17 (loop induction assumed, rule D18). RenetClient::from_channels (U14) builds channel_send_order in configuration order: the i-th entry is the i-th configured send channel (channels are served in configuration order).'),
     'C15': ('Per call of the reliable send loop body for an arbitrary message and any current_time >= last_sent: a small message is not re-sent before resend_time and is sent '
             '(timestamp = now, appended to the batch, budget charged) once it elapsed and the budget allows; every slice packet emitted is unacknowledged and due, its transmission time is recorded; '
             'timestamps change only to now; acknowledged slices/messages are never emitted (process_*_ack removes the entry or sets the flag: U6).',
             'The 3-second horizon: RenetClient::update (U18) forgets the record of a sent packet only when it is at least 3 s old and keeps every younger record unchanged. '
-            'Assumed: D6/D18 iteration protocol; time is monotone (last_sent <= current_time). Not decided: that the ids recorded for a sent packet are the ids it carried (map/collect in get_packets_to_send); '
+            'Assumed: D6/D18 iteration protocol; time is monotone (last_sent <= current_time). The ids recorded for a sent packet are the ids it carried (U16, records_written). Not decided: '
             '"promptly" for slices is only the per-slice statement above, not a bound over ticks.'),
 })
 
@@ -122,7 +120,7 @@ CLAIMS.update({
             'the per-id alternation Connected, Disconnected, ... follows from the add/remove contracts by induction over calls (argument, not a checked obligation).'),
     'C18': ('Step contracts (client: Kani, complete over any token value, any state, any timers below 2^40 s; server: Verus, U19): client update disconnects a connected client exactly when no packet arrived for more than '
             'timeout_seconds, moves a timed-out connecting client to the next listed address or gives up, produces at most one packet per 250 ms; only a datagram that decoded refreshes '
-            'last_packet_received_time (forged/replayed packets do not postpone a timeout).',
+            'last_packet_received_time, and a replayable handshake packet (denied/challenge/response are not replay-protected) that the current state ignores moves no timer and no field (forged/replayed packets do not postpone a timeout).',
             'Server: update_client drops a session only when it was marked disconnected or nothing arrived for more than its timeout_seconds, and sends its keep-alive to that session\'s address; an accepted payload refreshes that session\'s receive time, and a session that completes its handshake starts connected with a fresh receive time. '
             'NetcodeServer::update expires half-open sessions exactly at their token expiry. Not decided: everything phrased as eventually / within bounded time and the two-endpoint composition: '
             'contracts are the wrong tool for that half.'),
